@@ -64,6 +64,27 @@ def _one(raw):
                     bad.append(('unique[%s]' % style, 'each once', sorted(got)))
                 if set(got) != exp:
                     bad.append(('examples[%s]' % style, sorted(exp), sorted(got)))
+                # freeform layouts: the doctest starts at the first prompt of the first group that is not switched off and
+                # holds the source lines of exactly the groups that are kept
+                owners = {collectlib.callname(case, e): e[2] for e in case['decl']}
+                if case['moddoc']['kind'] != 'none':
+                    owners['__doc__'] = 0
+                for e in exs:
+                    x = owners.get(e.callname)
+                    if x is None:
+                        continue
+                    doc = case['items'][x - 1]['doc'] if x else case['moddoc']
+                    if doc['kind'] != 'free':
+                        continue
+                    ghost = case['summary'][x][3][style][e.num]
+                    if e.lineno != ghost:
+                        bad.append(('doctest_start[%s,%s]' % (style, e.callname), ghost, e.lineno))
+                    off = lambda g: (g == 1 and doc['lead'] > 0 and doc['hdr'] in ('lead', 'both')) or (g == 2 and doc['hdr'] in ('mid', 'both'))
+                    kept = [g for g in range(1, doc['nblk'] + 1) if not off(g)]
+                    exp_src = [l.strip() for g in kept for l in collectlib.src_lines(g, doc['nsrc'], rot)]
+                    got_src = [l.strip() for l in e.docsrc.split('\n') if l.strip().startswith(('>>> ', '... '))]
+                    if got_src != exp_src:
+                        bad.append(('doctest_source_lines[%s,%s]' % (style, e.callname), exp_src, got_src))
                 ids = [e.unique_callname for e in exs]
                 if len(ids) != len(set(ids)):
                     bad.append(('unique_identifiers[%s]' % style, 'unique', sorted(ids)))
@@ -88,6 +109,9 @@ def run(tier):
     out.rule = ('every module of <= %d items (nesting depth <= 2) over C07_Items (58 item kinds) x 3 module docstrings in Collect.tla, replayed under '
                 'the three styles (sampled where stated)' % b['n'])
     collectlib.run_space(out, 'C07_Items<=%d' % b['n'], 'C07_Items', 'C07_ModDocs', b['n'], _one, sig, limit=b['limit'])
+    # freeform layouts in which a word in front of a group of prompt lines (Benchmark:, Script:, ...) switches that group off
+    collectlib.run_space(out, 'C07 skip words', 'C07_HdrItems', 'C07_HdrModDocs', 2, _one, sig, limit=b['limit'], fillers='C07_HdrFill', maxdepth=1)
+    collectlib.deviation_must_fail(out, 'C07_HdrItems', 'C07_HdrModDocs', 1, 'SkipWordSticks', fillers='C07_HdrFill')
     for dev in ('CollectNestedClass', 'CollectMainGuard', 'CollectSetters', 'VisitFunctionBody', 'NoAsyncVisit'):
         collectlib.deviation_must_fail(out, 'C07_Items', 'C07_ModDocs', 2 if dev != 'CollectSetters' else 3, dev)
     from . import c17, corpus_collect
